@@ -14,6 +14,7 @@ import z3
 from . import ops
 from .ctx import Ctx, PathEnd, Infeasible, ReturnEx, BreakEx, ContinueEx, RaiseEx
 from .values import (
+    set_term, ViewList,
     SV, SInt, SBool, SReal, SBytes, SStr, SSeq, SEnum, SOpaque, SObj, SymRecDict, Unsupported,
     Int, Bool, Real, Bytes, ByteArray, Str, ListOf, TupleOf, sort_of, has_sym, ISEQ, Sort,
 )
@@ -627,7 +628,7 @@ class Interp:
             if isinstance(cur, SBytes) and cur.mutable:
                 if not ops.is_byteslike(val):
                     raise Unsupported("bytearray += non-bytes")
-                cur.term = z3.simplify(z3.Concat(cur.term, ops.bytes_term(val)))
+                set_term(cur, z3.Concat(cur.term, ops.bytes_term(val)))
                 return cur
             if isinstance(cur, list):
                 if isinstance(val, (list, tuple)):
@@ -636,7 +637,7 @@ class Interp:
                 raise Unsupported("list += symbolic")
             if isinstance(cur, SSeq) and cur.mutable:
                 r = ops.binop(self, op, cur, val)
-                cur.term = r.term
+                set_term(cur, r.term)
                 return cur
             if isinstance(cur, bytearray):
                 raise Unsupported("+= on concrete bytearray")
@@ -1216,7 +1217,7 @@ class Interp:
             a, b = ops.slice_bounds(self, n, idx[1], idx[2])
             # del s[a:b]  ==  s[:a] + s[max(a,b):]
             bb = z3.If(b < a, a, b)
-            obj.term = z3.simplify(z3.Concat(z3.Extract(obj.term, z3.IntVal(0), a), z3.Extract(obj.term, bb, n - bb)))
+            set_term(obj, z3.Concat(z3.Extract(obj.term, z3.IntVal(0), a), z3.Extract(obj.term, bb, n - bb)))
             return
         if isinstance(obj, (list, dict)) and not has_sym(idx):
             def do():
